@@ -134,8 +134,9 @@ enum Op {
     TryFromBoxedSlice { len_delta: i32 },
     TryFromVec { len_delta: i32, spare: usize },
     BoxIntoIter,
-    TryBoxedFromIter { c_delta: i32 },
+    TryBoxedFromIter { c_delta: i32, hint: u8 },
     BoxFromIter,
+    BoxFromIterLying { c_delta: i32 },
     DefaultBoxed,
     BoxGenerate,
     BoxMap,
@@ -156,8 +157,9 @@ impl Op {
             Op::TryFromBoxedSlice { len_delta } => format!("try_from_boxed_slice(len=N{len_delta:+})"),
             Op::TryFromVec { len_delta, spare } => format!("try_from_vec(len=N{len_delta:+},spare={spare})"),
             Op::BoxIntoIter => "Box::into_iter".into(),
-            Op::TryBoxedFromIter { c_delta } => format!("try_boxed_from_iter(c=N{c_delta:+})"),
+            Op::TryBoxedFromIter { c_delta, hint } => format!("try_boxed_from_iter(c=N{c_delta:+},hint={})", ["unknown", "(0,Some(N))", "(N,Some(N))", "exact"][*hint as usize]),
             Op::BoxFromIter => "Box::from_iter".into(),
+            Op::BoxFromIterLying { c_delta } => format!("Box::from_iter(hint=(N,Some(N)) but c=N{c_delta:+})"),
             Op::DefaultBoxed => "default_boxed".into(),
             Op::BoxGenerate => "Box::generate".into(),
             Op::BoxMap => "Box::map".into(),
@@ -179,6 +181,7 @@ impl Op {
             Op::BoxIntoIter => "Box::into_iter",
             Op::TryBoxedFromIter { .. } => "try_boxed_from_iter",
             Op::BoxFromIter => "Box::from_iter",
+            Op::BoxFromIterLying { .. } => "Box::from_iter(lying hint)",
             Op::DefaultBoxed => "default_boxed",
             Op::BoxGenerate => "Box::generate",
             Op::BoxMap => "Box::map",
@@ -204,8 +207,13 @@ fn all_ops() -> Vec<Op> {
         v.push(Op::TryFromBoxedSlice { len_delta: d });
     }
     v.extend([Op::GaIntoVec, Op::GaIntoBoxSlice, Op::IntoBoxedSlice, Op::IntoVec, Op::BoxIntoIter]);
-    for d in [-1, 0, 1] {
-        v.push(Op::TryBoxedFromIter { c_delta: d });
+    for d in [-1, 0, 1, 2] {
+        for hint in 0..4u8 {
+            v.push(Op::TryBoxedFromIter { c_delta: d, hint });
+        }
+    }
+    for d in [-1, 1, i32::MIN] {
+        v.push(Op::BoxFromIterLying { c_delta: d });
     }
     v.extend([Op::BoxFromIter, Op::DefaultBoxed, Op::BoxGenerate, Op::BoxMap, Op::BoxZip, Op::BoxFold, Op::BoxClone]);
     v
@@ -390,9 +398,17 @@ fn exec<E: Elem + Clone + Default, N: ArrayLength>(op: Op, cx: Ctx) -> Result<Op
                 same::<E>("Box::into_iter", &got, &want)?;
             }
         }
-        Op::TryBoxedFromIter { c_delta } => {
+        Op::TryBoxedFromIter { c_delta, hint } => {
             let Some(c) = src_len(n, c_delta) else { return Ok(None) };
-            let (src, log) = ScriptIter::<E>::new(c, Hint::Unknown, true, cx.panic_at);
+            // hints that do not rule N out, truthful or not: the verdict must follow the items
+            let h = match hint {
+                0 => Hint::Unknown,
+                1 => Hint::Fixed(0, Some(n)),
+                2 => Hint::Fixed(n, Some(n)),
+                _ => Hint::Exact,
+            };
+            let ruled_out = hint == 3 && c != n;
+            let (src, log) = ScriptIter::<E>::new(c, h, true, cx.panic_at);
             let out = guarded!(GA::<E, N>::try_boxed_from_iter(src));
             rep.calls = log.borrow().polls;
             match out {
@@ -403,7 +419,7 @@ fn exec<E: Elem + Clone + Default, N: ArrayLength>(op: Op, cx: Ctx) -> Result<Op
                     same::<E>("try_boxed_from_iter", &keys(&a[..]), &log.borrow().yielded)?;
                 }
                 Some(Err(_)) => {
-                    if c == n {
+                    if c == n && !ruled_out {
                         return Err(format!("WrongErr: exactly N = {n} items refused"));
                     }
                 }
@@ -417,6 +433,31 @@ fn exec<E: Elem + Clone + Default, N: ArrayLength>(op: Op, cx: Ctx) -> Result<Op
             rep.calls = log.borrow().polls;
             if let Some(a) = out {
                 same::<E>("Box::from_iter", &keys(&a[..]), &log.borrow().yielded)?;
+            }
+            drop(log);
+        }
+        Op::BoxFromIterLying { c_delta } => {
+            // the source claims exactly N items but delivers another count: collect() must
+            // panic with the length message, and every block must still be released properly
+            let Some(c) = src_len(n, c_delta) else { return Ok(None) };
+            if c == n {
+                return Ok(None);
+            }
+            let (src, log) = ScriptIter::<E>::new(c, Hint::Fixed(n, Some(n)), true, None);
+            s.arm(&cx);
+            let r = vkit::catch(move || src.collect::<Box<GA<E, N>>>());
+            s.disarm();
+            match r {
+                Caught::Returned(b) => {
+                    drop(b);
+                    return Err(format!("WrongOk: collect() into Box<GenericArray<_, U{n}>> accepted a source of {c} items that claimed exactly {n}"));
+                }
+                Caught::Other(m) => {
+                    if !m.contains(&format!("expected {n} items")) {
+                        return Err(format!("Panic: unexpected panic {m}"));
+                    }
+                }
+                Caught::Injected(..) => return Err("Panic: injected".into()),
             }
             drop(log);
         }
